@@ -501,6 +501,10 @@ impl Scanner {
                     self.line += 1;
                 }
             }
+            // from_str_radix also takes a leading sign, which is not a hex digit.
+            if !read_chars.chars().all(|c| c.is_ascii_hexdigit()) {
+                return Err(());
+            }
             let result = u8::from_str_radix(read_chars.as_str(), 16);
             match result {
                 Ok(b) => bytes.push(b),
